@@ -502,12 +502,37 @@ pub async fn run_conn_with(out: &mut Out, pend: &mut Vec<Pending>, ctx: &Ctx, rn
     let stream: Vec<u8> = frames.iter().flat_map(|f| resp_bytes(f).to_vec()).collect();
     // read segmentation: cut points anywhere (inside frames, inside CR LF), 0..8 cuts, or byte by byte
     let segs: Vec<Vec<u8>> = if mode == "srvc-fast-whole" {
-        // everything in one segment, or cut once somewhere (the second read starts inside a run)
-        if rng.chance(1, 3) {
-            let c = rng.below(stream.len() as u64 + 1) as usize;
-            vec![stream[..c].to_vec(), stream[c..].to_vec()].into_iter().filter(|s| !s.is_empty()).collect()
-        } else {
-            vec![stream.clone()]
+        // the batch collectors look at the HEAD of what one read delivered: every maximal run of plain GET /
+        // plain SET frames arrives at the head of a read of its own (two thirds of the time), or everything
+        // in one segment, or cut once somewhere (the second read starts inside a run)
+        match rng.below(6) {
+            0 => {
+                let c = rng.below(stream.len() as u64 + 1) as usize;
+                vec![stream[..c].to_vec(), stream[c..].to_vec()].into_iter().filter(|s| !s.is_empty()).collect()
+            }
+            1 => vec![stream.clone()],
+            _ => {
+                let plain = |f: &Vec<Vec<u8>>| -> u8 {
+                    if f.len() == 2 && f[0].eq_ignore_ascii_case(b"GET") { 1 } else if f.len() == 3 && f[0].eq_ignore_ascii_case(b"SET") { 2 } else { 0 }
+                };
+                let mut v: Vec<Vec<u8>> = Vec::new();
+                let mut cur: Vec<u8> = Vec::new();
+                let mut prev = 0u8;
+                for f in frames {
+                    let p = plain(f);
+                    // a run starts: what came before is a read of its own (a SET run right after a GET run stays
+                    // in the same read: the SET collector runs after the GET collector)
+                    if p != 0 && prev == 0 && !cur.is_empty() {
+                        v.push(std::mem::take(&mut cur));
+                    }
+                    cur.extend_from_slice(&resp_bytes(f));
+                    prev = p;
+                }
+                if !cur.is_empty() {
+                    v.push(cur);
+                }
+                v
+            }
         }
     } else if rng.chance(1, 10) && stream.len() < 400 {
         stream.iter().map(|b| vec![*b]).collect()
